@@ -37,6 +37,7 @@ struct LeafArgs {
 struct Ctx {
     Sim sim;
     uint64_t runKey = 0;
+    uint64_t kernelParam = 0;   // WeightKernel::param of the kernel object handed to the executor (0: kernels built from the configuration)
 
     // geometry of the run (set by the world when it builds the tree)
     int height = 0;
